@@ -69,6 +69,7 @@ class Encoded(object):
         self.layout = []
         self.header_spans = []
         self.frame_ends = []
+        self.expected_ends = []   # stream length when expected[i] completed
 
 
 def emit(enc, op, payload, fin=1, lenform=None, **kw):
@@ -102,6 +103,7 @@ def encode_items(items, enc=None, stop_after_frags=None, transform=None):
             data = bytes.fromhex(it['hex'])[:125]
             emit(enc, OPC[kind], data)
             enc.expected.append((kind, data))
+            enc.expected_ends.append(len(enc.stream))
             continue
         if kind == 'close':
             emit(enc, 8, peer.enc_close_payload(it.get('code'),
@@ -109,6 +111,7 @@ def encode_items(items, enc=None, stop_after_frags=None, transform=None):
             enc.expected.append(('closing', it.get('code'),
                                  it.get('reason', '') if it.get('code')
                                  is not None else ''))
+            enc.expected_ends.append(len(enc.stream))
             enc.probes['final_close'] += 1
             continue
         payload = item_payload(it)
@@ -144,12 +147,14 @@ def encode_items(items, enc=None, stop_after_frags=None, transform=None):
                     data = bytes.fromhex(c['hex'])[:125]
                     emit(enc, OPC[c['kind']], data)
                     enc.expected.append((c['kind'], data))
+                    enc.expected_ends.append(len(enc.stream))
                     enc.probes['ctl_between_fragments'] += 1
         if complete:
             if kind == 'text':
                 enc.expected.append(('text', payload.decode('utf-8')))
             else:
                 enc.expected.append(('binary', payload))
+            enc.expected_ends.append(len(enc.stream))
     return enc
 
 
